@@ -56,6 +56,11 @@ func c12Invocations() []c12Inv {
 			out = append(out, c12Inv{M: m, Repo: "a"})
 		}
 	}
+	// the same session or content addressed through the other repository (one method per access
+	// kind, plus both ways of obtaining a writer: a resume names an upload ID an earlier call may have vetted)
+	for _, m := range []string{"GetBlob", "PushBlob", "PushBlobChunked", "PushBlobChunkedResume", "DeleteBlob", "Tags"} {
+		out = append(out, c12Inv{M: m, Repo: "b"})
+	}
 	return out
 }
 
@@ -172,6 +177,7 @@ func c12Run(r *vcore.Run, sub string, c c12Case) {
 	backend := newRecBackend()
 	backend.Repos = []string{"a", "b", "c"}
 	backend.TagsL = []string{"t", "u"}
+	backend.UploadID = "upload-id-1" // the ID every resume in the sequence names
 	pol := newC12Policy(c.Mask)
 	var wrapped ociregistry.Interface
 	allowedSel := map[string]bool{}
@@ -205,7 +211,7 @@ func c12Run(r *vcore.Run, sub string, c c12Case) {
 		calls := append([]recCall(nil), backend.Calls[before:]...)
 		// twin: the same call made directly
 		twin := newRecBackend()
-		twin.Repos, twin.TagsL = backend.Repos, backend.TagsL
+		twin.Repos, twin.TagsL, twin.UploadID = backend.Repos, backend.TagsL, backend.UploadID
 		tres := callMethod(ctx, twin.Funcs(), inv.M, inv.args())
 		textra := c12UseWriter(tres)
 		// expected decision
